@@ -64,6 +64,9 @@ class Gen:
                 return 'SB'      # str or bool tagged scalars
             if kind in ('str', 'userstring', 'stringlike'):
                 return 'S'
+            if any(c['name'] == t[1] and c.get('parsed')
+                   for c in self.classes):
+                return 'S'
             return 'M'
         if k in ('list', 'seq', 'mseq'):
             return 'Q'
@@ -201,6 +204,8 @@ class Gen:
                 c['members'] = list(UPPER_ENUM[:rng.randint(2, 6)])
                 c['savorize'] = [['enum_upper']]
                 c['sweeten'] = [['enum_lower']]
+            if rng.random() < 0.25:
+                c['str_mixin'] = True       # class E(str, enum.Enum)
             self.classes.append(c)
             self.enums.append(name)
         for kind in ('str', 'userstring', 'stringlike'):
@@ -308,10 +313,39 @@ class Gen:
         self.plains.append(name)
         return c
 
+    def add_parsed_class(self):
+        """A "parsed class": written as one string ('12|red'), recognised as
+        a string scalar, split into typed attributes by its savorizer and
+        joined again by its sweetener (replaces the node)."""
+        rng = self.rng
+        name = self.new_name('P')
+        pfx = name.lower()
+        fields = [['%s_id' % pfx, 'int']]
+        params = [{'name': '%s_id' % pfx, 'type': 'int'}]
+        plain_enums = [e for e in self.enums if not any(
+            c['name'] == e and c.get('savorize') for c in self.classes)]
+        for i in range(rng.randint(1, 2)):
+            pn = '%s_%s' % (pfx, 'ab'[i])
+            if plain_enums and rng.random() < 0.7:
+                params.append({'name': pn,
+                               'type': ['cls', rng.choice(plain_enums)]})
+                fields.append([pn, 'enum'])
+            else:
+                params.append({'name': pn, 'type': 'int'})
+                fields.append([pn, 'int'])
+        sep = rng.choice(['|', ' ', '/', ' x '])
+        c = {'name': name, 'kind': 'plain', 'params': params, 'parsed': True,
+             'recognize': ['scalar', ['str']],
+             'savorize': [['scalar_to_mapping_typed', fields, sep]],
+             'sweeten': [['mapping_to_scalar', [f[0] for f in fields], sep]]}
+        self.classes.append(c)
+        self.plains.append(name)
+        return c
+
     def add_seasoning(self, c):
         """Inverse savorize/sweeten pairs from the menu."""
         rng = self.rng
-        if c.get('kind') != 'plain':
+        if c.get('kind') != 'plain' or c.get('parsed'):
             return
         r = rng.random()
         names = [p['name'] for p in c['params']]
@@ -363,13 +397,15 @@ class Gen:
         rng = self.rng
         self.add_scalar_classes()
         n = rng.randint(1, 5)
+        if rng.random() < 0.15:
+            self.add_parsed_class()
         for _ in range(n):
             base = None
             if self.plains and rng.random() < 0.45:
                 bname = rng.choice(self.plains)
                 base = [c for c in self.classes if c['name'] == bname][0]
                 if base.get('kind') != 'plain' or base.get('extra') \
-                        or base.get('attributes_hook'):
+                        or base.get('attributes_hook') or base.get('parsed'):
                     base = None
             self.add_plain_class(base)
         # abstract roots: only classes that have a subclass
